@@ -28,6 +28,11 @@ def summary(out):
 
 
 def load_replay(ctx):
+    """--replay <file>: take seed and tier-independent case description from a replay file written by ctx.violation.
+    C03/C06/C08 re-run their (deterministic, seed-derived) quick tier with that seed; C07 re-runs exactly the one row."""
     if not ctx.replay:
         return None
-    return json.load(open(ctx.replay)).get("replay")
+    f = json.load(open(ctx.replay))
+    if "seed" in f:
+        ctx.seed = int(f["seed"])
+    return f.get("replay")
